@@ -736,3 +736,47 @@ VK(diff_parse) {
   if (!a && !u && d == 0) return 0;
   return (1ull << 63) | d;
 }
+
+// native setter sweep (base case for C03/C04/C07/C19 incl. the host setters the solver cannot decide):
+// in = [href (p0 bytes)] value ; p1 = setter 0 protocol,1 username,2 password,3 host,4 hostname,5 port,6 pathname,7 search,8 hash,9 href
+// returns 0 if href does not parse; else 1<<63 | bits: 1 rv differ, 2 href differ, 4 agg failed but changed, 8 url failed but changed,
+// 16 validate() false, 32 href not a parse fixed point, 64 getters differ ; out = aggregator post-state
+template <class T>
+static bool vk_apply_setter(T& x, uint64_t which, std::string_view v) {
+  switch (which) {
+    case 0: return x.set_protocol(v);
+    case 1: return x.set_username(v);
+    case 2: return x.set_password(v);
+    case 3: return x.set_host(v);
+    case 4: return x.set_hostname(v);
+    case 5: return x.set_port(v);
+    case 6: return x.set_pathname(v);
+    case 7: x.set_search(v); return true;
+    case 8: x.set_hash(v); return true;
+    default: return x.set_href(v);
+  }
+}
+VK(setter_sweep) {
+  UNUSED;
+  std::string_view href(reinterpret_cast<const char*>(in), p0), val(reinterpret_cast<const char*>(in + p0), n - p0);
+  auto a = ada::parse<ada::url_aggregator>(href);
+  auto u = ada::parse<ada::url>(href);
+  if (!a || !u) return 0;
+  std::string before_a(a->get_href()), before_u = u->get_href();
+  bool ra = vk_apply_setter(*a, p1, val), ru = vk_apply_setter(*u, p1, val);
+  uint64_t d = 0;
+  std::string ha(a->get_href()), hu = u->get_href();
+  if (ra != ru) d |= 1;
+  if (ha != hu) d |= 2;
+  if (!ra && ha != before_a) d |= 4;
+  if (!ru && hu != before_u) d |= 8;
+  if (!a->validate()) d |= 16;
+  auto again = ada::parse<ada::url_aggregator>(ha);
+  if (!again || again->get_href() != ha) d |= 32;
+  if (a->get_host() != u->get_host() || a->get_port() != u->get_port() || a->get_pathname() != u->get_pathname() ||
+      a->get_search() != u->get_search() || a->get_hash() != u->get_hash() || a->get_username() != u->get_username() ||
+      a->get_password() != u->get_password() || a->get_protocol() != u->get_protocol() || a->host_type != u->host_type ||
+      a->has_opaque_path != u->has_opaque_path) d |= 64;
+  if (a->buffer.size() + VK_HDR <= cap && a->buffer.size() <= 255) vk_save(*a, out, cap, 1); else d |= 1ull << 40;
+  return (1ull << 63) | d;
+}
